@@ -27,6 +27,12 @@ CHECKS = {
  "C08": ("complete enumeration of membership patterns (7 x 7 schema variants) x 5 binding modes x mutation-bounded documents with abstract-dispatch selections, executed under reflection on cold roots, against a reference executor with the standard applicability relation",
          "All interface/union membership patterns over three object types and all binding modes are covered completely; documents within the mutation bound of 6 abstract base documents.",
          "Reflection strategy only (RS-only graphs are outside the claim as documented); mixed registered-Resolver graphs not yet covered.", "5.8"),
+ "C11": ("explicit-state exploration of call histories: every sequence (length <= 3 quick / 4 thorough) of (operation, variables) resolve calls on ONE parsed executable, no state merging, fresh-parse differential oracle + printed form, on the real API under RS/AS/FS",
+         "All call histories up to the bound over 9 documents chosen for the carriers of hidden AST mutation; each step is compared with a fresh parse.",
+         "Fresh parse is resolved on the same root, so only the parsed request can carry state; histories longer than the bound not covered.", "5.11"),
+ "C07": ("bounded-exhaustive enumeration of request texts (valid, every single fault, every single defect at every site, every truncation and token deletion, bad variable maps, unknown operation) x 6 layouts x 3 indents x Sort, invariant checking of every response of the real resolver",
+         "Every response produced inside the bound is checked against the envelope grammar, error shape, location bounds, line-of-token for errors addressing a rendered selection, rejected => no data, and an encoding/json round trip in every indent mode.",
+         "encoding/json trusted; the line demand only applies where the harness can map the error path to a selection it rendered; finding C07-F1 matches only the pinned union-binding message.", "5.7"),
 }
 
 NOT_YET = {}
